@@ -61,10 +61,10 @@ func (n *gnode) countElems() int {
 
 var (
 	tagPool    = []string{"div", "div", "span", "x-a", "x-a", "x-b", "section", "em"}
-	classPool  = []string{"c", "c", "d", "d", "e", "C", "1a", "a.b", "é", "-x", "c-d", "x", "\U0001d4b3"}
-	idPool     = []string{"i", "i", "j", "I", "1", "x:y", "é"}
-	attrNames  = []string{"k", "k", "k", "data-k"}
-	valuePool  = []string{"", "c", "c", "C", "d", "cd", "dc", "c-d", "c d", " c", "d c ", "c\td", " ", "  ", "é", "c.d", "cdc", "-c", "d  c"}
+	classPool  = []string{"c", "c", "d", "d", "e", "C", "1a", "a.b", "é", "-x", "c-d", "x", "\U0001d4b3", "c\u0001", "-1"}
+	idPool     = []string{"i", "i", "j", "I", "1", "x:y", "é", "c\td"}
+	attrNames  = []string{"k", "k", "k", "k", "data-k", "a.b"}
+	valuePool  = []string{"", "c", "c", "C", "d", "cd", "dc", "c-d", "c d", " c", "d c ", "c\td", " ", "  ", "é", "c.d", "cdc", "-c", "d  c", "k", "s", "cé", "c\"d", "c\\d", "c\nd"}
 	classSeps  = []string{" ", " ", "  ", "\t", "\n", " \f"}
 	wsTexts    = []string{" ", "\n", "\t \n", "\f", "  "}
 	plainTexts = []string{"t", "x y", " t ", "0"}
@@ -89,7 +89,7 @@ func randAttrs(r *rand.Rand, rich bool) []rattr {
 			if rich {
 				sb.WriteString(pick(r, classPool))
 			} else {
-				sb.WriteString(pick(r, []string{"c", "d"}))
+				sb.WriteString(pick(r, []string{"c", "d", "c", "d", "1a"}))
 			}
 		}
 		if r.Intn(8) == 0 {
@@ -110,11 +110,14 @@ func randAttrs(r *rand.Rand, rich bool) []rattr {
 		if rich {
 			out = append(out, rattr{"k", pick(r, valuePool)})
 		} else {
-			out = append(out, rattr{"k", pick(r, []string{"", "c", "C", "c d", "c-d", "dc", "cd", "d"})})
+			out = append(out, rattr{"k", pick(r, []string{"", "c", "C", "c d", "c-d", "dc", "cd", "d", "k", " c"})})
 		}
 	}
 	if rich && r.Intn(100) < 20 {
 		out = append(out, rattr{"data-k", pick(r, valuePool)})
+	}
+	if rich && r.Intn(100) < 12 {
+		out = append(out, rattr{"a.b", pick(r, valuePool)})
 	}
 	if len(out) > 1 && r.Intn(2) == 0 {
 		r.Shuffle(len(out), func(i, j int) { out[i], out[j] = out[j], out[i] })
@@ -123,7 +126,7 @@ func randAttrs(r *rand.Rand, rich bool) []rattr {
 }
 
 // filler returns 0..2 non-element nodes for a gap between element children.
-func filler(r *rand.Rand, oddWS bool) []*gnode {
+func filler(r *rand.Rand) []*gnode {
 	var out []*gnode
 	for k := 0; k < 2; k++ {
 		switch x := r.Intn(100); {
@@ -132,7 +135,8 @@ func filler(r *rand.Rand, oddWS bool) []*gnode {
 		case x < 70:
 			out = append(out, &gnode{kind: kText, text: pick(r, wsTexts)})
 		case x < 80:
-			if oddWS {
+			if r.Intn(100) < 30 {
+				// not document white space: U+00A0, U+000B, U+0085 count as content for :empty
 				out = append(out, &gnode{kind: kText, text: pick(r, oddWSTexts)})
 			} else {
 				out = append(out, &gnode{kind: kText, text: pick(r, plainTexts)})
@@ -146,16 +150,16 @@ func filler(r *rand.Rand, oddWS bool) []*gnode {
 
 // interleave inserts text and comment nodes between (and around) the element children of every
 // element, and inside leaves.
-func interleave(r *rand.Rand, n *gnode, oddWS bool) {
+func interleave(r *rand.Rand, n *gnode) {
 	if n.kind != kElement {
 		return
 	}
 	var kids []*gnode
-	kids = append(kids, filler(r, oddWS)...)
+	kids = append(kids, filler(r)...)
 	for _, k := range n.kids {
-		interleave(r, k, oddWS)
+		interleave(r, k)
 		kids = append(kids, k)
-		kids = append(kids, filler(r, oddWS)...)
+		kids = append(kids, filler(r)...)
 	}
 	n.kids = kids
 }
@@ -169,6 +173,22 @@ func randForest(r *rand.Rand, budget int, depth int) []*gnode {
 		}
 		n := &gnode{kind: kElement, tag: pick(r, tagPool), attrs: randAttrs(r, true)}
 		budget--
+		if budget >= 2 && r.Intn(100) < 4 {
+			// foreign content: <svg> holding an <html> element (not the root!) and custom elements.
+			// Only tag names that do not make the HTML parser break out of foreign content are used.
+			n.tag = "svg"
+			for k := 0; k < 3 && budget > 0; k++ {
+				kid := &gnode{kind: kElement, tag: pick(r, []string{"html", "html", "x-a", "x-b"}), attrs: randAttrs(r, true)}
+				budget--
+				if budget > 0 && r.Intn(3) == 0 {
+					kid.kids = append(kid.kids, &gnode{kind: kElement, tag: pick(r, []string{"html", "x-a"}), attrs: randAttrs(r, true)})
+					budget--
+				}
+				n.kids = append(n.kids, kid)
+			}
+			out = append(out, n)
+			continue
+		}
 		if depth < 5 && budget > 0 && r.Intn(100) < 55 {
 			sub := r.Intn(budget + 1)
 			n.kids = randForest(r, sub, depth+1)
@@ -325,6 +345,9 @@ func exhOthers() []Simple {
 	}
 	return []Simple{
 		ciOp("~=", "C"), ciOp("|=", "C"), ciOp("^=", "C"), ciOp("$=", "C"), ciOp("*=", "D"),
+		// forms on which the pinned tree diverged (fixed since; kept in the exhaustive alphabet)
+		ciOp("=", "\u212a"), at("k", "^=", ""), at("k", "~=", ""), Simple{K: "never", N: "hover"}, lg("not", cx1(Simple{K: "never", N: "hover"})),
+		cl("1a"), at("k", "=", "c\"d"),
 		cl("c"), cl("d"), idS("i"), idS("j"),
 		at("k", "", ""), at("k", "=", "c"), at("k", "~=", "c"), at("k", "|=", "c"), at("k", "^=", "c"), at("k", "$=", "c"), at("k", "*=", "c"),
 		ci, at("k", "=", ""), at("k", "|=", ""), at("k", "~=", "d"),
@@ -467,10 +490,10 @@ func exhSelectorSet(name string) []exhSel {
 // random selectors
 
 var (
-	selClassPool = []string{"c", "c", "d", "d", "e", "C", "a.b", "é", "-x", "c-d", "zz", "x", "\U0001d4b3"}
-	selIDPool    = []string{"i", "i", "j", "I", "1", "x:y", "é", "zz"}
-	selTagPool   = []string{"div", "div", "span", "x-a", "x-a", "x-b", "section", "em", "body", "html", "zz"}
-	operandPool  = []string{"c", "c", "d", "C", "cd", "dc", "c-d", "c d", "-", "c-", " c", "d ", "é", "c.d", ".", "D", "zz", "cdc"}
+	selClassPool = []string{"c", "c", "d", "d", "e", "C", "a.b", "é", "-x", "c-d", "zz", "x", "\U0001d4b3", "1a", "1a", "-1", "c\td", "c\u0001", "c\nd", "\u007f"}
+	selIDPool    = []string{"i", "i", "j", "I", "1", "x:y", "é", "zz", "c\td", "c\u0001"}
+	selTagPool   = []string{"div", "div", "span", "x-a", "x-a", "x-b", "section", "em", "body", "html", "zz", "svg"}
+	operandPool  = []string{"c", "c", "d", "C", "cd", "dc", "c-d", "c d", "-", "c-", " c", "d ", "é", "c.d", ".", "D", "zz", "cdc", "c\"d", "c\\d", "c\nd", "\"", "c'd\"", "\\", "\u00c9", "\u212a", "\u017f", "c\u00c9", "k", "s", "K", "S"}
 	pcNames      = []string{"first-child", "last-child", "only-child", "first-of-type", "last-of-type", "only-of-type"}
 	peNames      = []string{"before", "after", "first-line", "first-letter", "marker", "selection", "placeholder", "backdrop", "cue", "grammar-error", "spelling-error", "footnote-call", "footnote-marker"}
 	neverNames   = []string{"hover", "visited", "active", "focus", "target"}
@@ -478,16 +501,12 @@ var (
 )
 
 // sgen generates random selectors.  The kd* switches enable the feature combinations on which the
-// unchanged tree is known to diverge from the specification (see notes/C05.md); they are only set in
+// tree is still known to diverge from the specification (see notes/C05.md); they are only set in
 // report-only cases.
 type sgen struct {
 	r            *rand.Rand
-	kdAttrEmpty  bool // ^= $= *= ~= with an empty / white-space-only operand
-	kdNever      bool // :hover & co (specificity)
+	kdAttrBlank  bool // ^= $= *= with a white-space-only (non-empty) operand, against blank values
 	kdHasComplex bool // :has() whose argument contains a descendant or child combinator
-	kdEscape     bool // names / operands that String() does not escape
-	kdIFlag      bool // i flag with non-ASCII case pairs
-	kdComment    bool // "/**/" between the simple selectors of a compound
 }
 
 func wsOnly(s string) bool {
@@ -505,9 +524,6 @@ func (g *sgen) attrSimple() Simple {
 	if r.Intn(12) == 0 {
 		s.N = pick(r, []string{"class", "id", "zz"})
 	}
-	if g.kdEscape && r.Intn(4) == 0 {
-		s.N = "a.b" // String() prints attribute names without escaping
-	}
 	if s.Op == "" {
 		return s
 	}
@@ -515,39 +531,29 @@ func (g *sgen) attrSimple() Simple {
 		switch x := r.Intn(100); {
 		case x < 70:
 			s.V = pick(r, operandPool)
-		case x < 90:
+		case x < 88:
 			s.V = pick(r, valuePool)
 		default:
-			s.V = pick(r, []string{"", " ", "  "})
+			s.V = pick(r, []string{"", "", " ", "  "}) // empty operand: represents nothing for ~= ^= $= *=
 		}
-		if g.kdEscape && r.Intn(2) == 0 {
-			s.V = pick(r, []string{"c\"d", "c\\d", "c\nd", "\"", "c'd\"", "\\"})
-		}
-		if g.kdAttrEmpty {
+		if g.kdAttrBlank {
 			if r.Intn(3) != 0 {
-				s.Op = pick(r, []string{"^=", "$=", "*=", "~="})
-				s.V = pick(r, []string{"", "", " ", "  "})
-				if s.Op == "~=" {
-					s.V = ""
-				}
+				s.Op = pick(r, []string{"^=", "$=", "*="})
+				s.V = pick(r, []string{" ", " ", "  "})
 			}
 			break
 		}
-		bad := false
-		switch s.Op {
-		case "^=", "$=", "*=":
-			bad = wsOnly(s.V) // includes ""
-		case "~=":
-			bad = s.V == ""
+		// open defect (attr-blank-value-substring): a white-space-only operand against a blank value
+		if (s.Op == "^=" || s.Op == "$=" || s.Op == "*=") && s.V != "" && wsOnly(s.V) {
+			continue
 		}
-		if !bad {
-			break
-		}
+		break
 	}
 	if r.Intn(100) < 25 {
 		s.I = true
-		if g.kdIFlag {
-			s.V = pick(r, []string{"É", "K", "ſ", "cÉ"}) // É, KELVIN SIGN, LONG S
+		if !g.kdAttrBlank && r.Intn(5) == 0 {
+			// letters whose Unicode case folding reaches ASCII or Latin-1 letters: É, KELVIN SIGN, LONG S
+			s.V = pick(r, []string{"\u00c9", "\u212a", "\u017f", "c\u00c9", "K", "S"})
 		}
 	}
 	return s
@@ -558,17 +564,9 @@ func (g *sgen) simple(depth int) Simple {
 	for {
 		switch x := r.Intn(100); {
 		case x < 18:
-			n := pick(r, selClassPool)
-			if g.kdEscape && r.Intn(2) == 0 {
-				n = pick(r, []string{"1a", "1a", "-1", "c\td", "c\u0001", "c\nd", "\u007f"})
-			}
-			return cl(n)
+			return cl(pick(r, selClassPool))
 		case x < 26:
-			n := pick(r, selIDPool)
-			if g.kdEscape && r.Intn(2) == 0 {
-				n = pick(r, []string{"c\td", "c\u0001"})
-			}
-			return idS(n)
+			return idS(pick(r, selIDPool))
 		case x < 48:
 			return g.attrSimple()
 		case x < 60:
@@ -598,9 +596,8 @@ func (g *sgen) simple(depth int) Simple {
 			}
 			return lg(k, args...)
 		default:
-			if g.kdNever {
-				return Simple{K: "never", N: pick(r, neverNames)}
-			}
+			// user-action / history pseudo-classes: never match in a static document, weigh (0,1,0)
+			return Simple{K: "never", N: pick(r, neverNames)}
 		}
 	}
 }
@@ -625,9 +622,6 @@ func (g *sgen) compound(depth int) Compound {
 	}
 	if len(c.S) == 0 && n == 0 {
 		n = 1
-	}
-	if g.kdNever && r.Intn(2) == 0 {
-		c.S = append(c.S, Simple{K: "never", N: pick(r, neverNames)})
 	}
 	for i := 0; i < n; i++ {
 		c.S = append(c.S, g.simple(depth))
